@@ -41,6 +41,16 @@ def handle : List String → String
     | some b => s!"lower={toHexD (toLower b)}"
     | none => "bad-op"
   | ["c20.hosts"] => s!"hosts={showList (reservedHosts.map toHexD)}"
+  | ["c20.alias", how, k, names, links] =>
+    -- a caller writes through the slice `ReservedHosts()` returned. The model's `resolveString` is a function
+    -- of the link alone and `reservedHosts` a constant: the answers before and after are the same, and the
+    -- list afterwards is the regenerated one.
+    match k.toNat?, (splitComma names).mapM fromHex?, (splitComma links).mapM fromHex? with
+    | some _, some _, some ls =>
+      if how ∉ ["read", "append", "assign", "prefix"] then "bad-op" else
+      let rs := showList (ls.map fun l => showOutcome (resolveString l))
+      s!"before={rs} after={rs} hosts={showList (reservedHosts.map toHexD)}"
+    | _, _, _ => "bad-op"
   | ["c20.lowertab"] =>
     -- every rune of every run (and the ASCII letters) through `lowerRune`
     let cands := (List.range 128) ++ Mtv.Gen.Links.lowerRuns.flatMap fun (lo, hi, step, _) =>
